@@ -203,6 +203,18 @@ class Stack:
                 note = await self._wait_idle(c)
         elif k == "get":
             note = await self.http_get(o[1])
+        elif k == "roles":
+            # what `nostr-relay role set <pubkey> <roles>` does
+            await self.st.set_auth_roles(env.PUBS[o[1]], o[2])
+            await env.quiesce(self.st)
+        elif k == "gc":
+            # one pass of the storage's own garbage collector at the current (injected) time
+            from nostr_relay.util import call_from_path
+            try:
+                await call_from_path(self.st.DEFAULT_GARBAGE_COLLECTOR, self.st).run_once()
+            except Exception as e:      # noqa
+                note = "gc-raised:" + type(e).__name__
+            await env.quiesce(self.st)
         else:
             c = self.conns.get(o[1])
             if c is None or c.closed is not None or c.done.is_set():
@@ -646,6 +658,34 @@ def gen_store_scenario(rng, backend):
     return {"backend": backend, "conf": conf, "ops": ops, "forged_ids": forged_ids}
 
 
+def gen_gc_scenario(rng, backend):
+    ops = [["open", 0, "1.1.1.1", None], ["open", 1, "2.2.2.2", None], ["req", 1, "live", [{"kinds": [1, 20001]}]]]
+    evs = []
+    for i in range(rng.randint(4, 8)):
+        r = rng.random()
+        if r < 0.45:
+            evs.append(env.mk_event(i % 3, 1, env.NOW - 5, [["expiration", str(env.NOW + rng.choice([10, 50, 150, 100000]))]], "exp%d" % i))
+        elif r < 0.6:
+            evs.append(env.mk_event(i % 3, 20001, env.NOW - 5, [], "eph%d" % i))
+        elif r < 0.75:
+            evs.append(env.mk_event(i % 3, 1, env.NOW - 5, [["expiration", rng.choice(["abc", "", "1e9"])]], "malformed%d" % i))
+        else:
+            evs.append(env.mk_event(i % 3, 1, env.NOW - 5, [], "plain%d" % i))
+    for e in evs:
+        ops.append(["event", 0, e])
+        if rng.random() < 0.7:
+            ops.append(["get", e["id"]])
+    ops.append(["req", 0, "before", [{"kinds": [1, 20001]}]])
+    for step in (rng.choice([20, 60]), rng.choice([100, 200])):
+        ops.append(["tick", step])
+        ops.append(["gc"])
+        for e in evs:
+            ops.append(["get", e["id"]])
+        ops.append(["req", 0, "after%d" % step, [{"kinds": [1, 20001]}]])
+    ops += [["drop", 0], ["drop", 1]]
+    return {"backend": backend, "conf": {}, "ops": ops}
+
+
 def gen_rule(rng):
     return "%d/%s" % (rng.choice([-1, 0, 1, 2, 2, 3, 5]), rng.choice(["s", "min", "h"]))
 
@@ -692,6 +732,20 @@ def gen_auth_scenario(rng, backend):
                                "valid_roles": ["a", "u", "w"], "default_roles": rng.choice([["u"], []]) and ["u"] or ["u"]}}
     ops = [["open", 0, "1.1.1.1", None], ["open", 1, "2.2.2.2", None]]
     evs = [env.mk_event(rng.randrange(3), 1, env.NOW - 5, [], "a%d" % i) for i in range(6)]
+    r0 = rng.random()
+    if r0 < 0.33:
+        # a connection that is served while anonymous, authenticates, and goes on asking
+        conf["authentication"]["actions"] = {"save": "aw", "query": "ar"}
+        k1, k2 = [env.mk_event(rng.randrange(3), 1, env.NOW - 9 + j, [], "open%d %d" % (j, rng.randrange(10 ** 6))) for j in range(2)]
+        ops += [["roles", 0, "rw"], ["req", 0, "p0", [{"kinds": [1]}]], ["event", 1, k1], ["auth", 0, 0, url, 0, 22242], ["req", 0, "p1", [{"kinds": [1], "limit": 1}]],
+                ["event", 1, k2], ["req", 0, "p0", [{"kinds": [1]}]], ["close", 0, "p1"], ["req", 0, "p2", [{"kinds": [1], "limit": 2}]]]
+    elif r0 < 0.75:
+        # the life of one connection: refused while anonymous, authenticated, served; the other connection publishes meanwhile
+        conf["authentication"]["actions"] = {"save": "aw", "query": "r"}
+        k1, k2, k3 = [env.mk_event(rng.randrange(3), 1, env.NOW - 9 + j, [], "core%d %d" % (j, rng.randrange(10 ** 6))) for j in range(3)]
+        ops += [["roles", 0, "rw"], ["req", 0, "r0", [{"kinds": [1]}]], ["event", 1, k1], ["auth", 0, 0, url, 0, 22242], ["req", 0, "r1", [{"kinds": [1]}]],
+                ["event", 1, k2], ["req", 0, "r0", [{"kinds": [1]}]], ["event", 1, k3], ["auth", 0, 0, "ws://other.example/", 0, 22242],
+                ["req", 0, "r2", [{"kinds": [1], "limit": 1}]], ["close", 0, "r1"], ["event", 1, env.mk_event(1, 1, env.NOW - 2, [], "after close %d" % rng.randrange(10 ** 6))]]
     for i, e in enumerate(evs):
         c = rng.choice([0, 1])
         x = rng.random()
@@ -754,9 +808,20 @@ def transcript_oracles(sc, obs):
     forged = set(sc.get("forged_ids", []))
     accepted = {}            # id -> event
     removed = {}             # id -> op index of the accepted deletion
+    collected = {}           # id -> op index of the collector pass that had to remove it
+    open_subs = {}           # connection -> subscription ids the relay accepted and that were not closed since
+    clock = 0
     for i, (o, ob) in enumerate(zip(sc["ops"], obs)):
         frames = [(cid, f) for cid, fr in ob["frames"] for f in fr]
         closed_now = {cid for cid, _ in ob.get("closed", [])}
+        if o[0] == "tick":
+            clock += o[1]
+        if o[0] == "gc":
+            T = env.NOW + clock
+            for x in accepted.values():
+                exp = [tg[1] for tg in x.get("tags", []) if len(tg) > 1 and tg[0] == "expiration" and isinstance(tg[1], str) and tg[1].isascii() and tg[1].isdigit()]
+                if (20000 <= x.get("kind", 0) < 30000) or any(int(v) < T for v in exp):
+                    collected.setdefault(x["id"], i)
         if o[0] == "event" and ob.get("note") != "gone":
             oks = [f for cid, f in frames if cid == o[1] and f[0] == "OK"]
             if len(oks) != 1 and o[1] not in closed_now:
@@ -767,11 +832,26 @@ def transcript_oracles(sc, obs):
                     out.append(("forged-event-admitted", i, "a forged event was acknowledged with OK true"))
                 accepted.setdefault(ev["id"], ev)
                 removed.pop(ev["id"], None)          # accepted again after its removal: served legitimately from here on
+                collected.pop(ev["id"], None)
                 if ev.get("kind") == 5:
                     for tg in ev.get("tags", []):
                         x = accepted.get(tg[1]) if len(tg) > 1 and tg[0] == "e" else None
                         if x is not None and x["pubkey"] == ev["pubkey"] and x["created_at"] < ev["created_at"] and x["kind"] != 5:
                             removed.setdefault(x["id"], i)
+        if o[0] == "req" and ob.get("note") != "gone":
+            mine = [f for cid, f in frames if cid == o[1]]
+            if any(f[0] == "EOSE" and f[1] == o[2] for f in mine):
+                open_subs.setdefault(o[1], set()).add(o[2])
+            elif any(f[0] == "NOTICE" for f in mine):
+                open_subs.setdefault(o[1], set()).discard(o[2])      # refused (or a failed replacement): not open
+        if o[0] == "close" and ob.get("note") != "gone":
+            open_subs.setdefault(o[1], set()).discard(o[2])
+        if o[0] not in ("req",):
+            for cid, f in frames:
+                if f[0] == "EVENT" and f[1] not in open_subs.get(cid, set()):
+                    out.append(("event-under-unopened-subscription", i, "connection %d was sent an EVENT under subscription id %r, which the relay "
+                                "refused or the client had closed" % (cid, f[1])))
+                    break
         if o[0] == "req" and ob.get("note") == "TIMEOUT":
             out.append(("req-met-with-silence", i, "a REQ got neither EOSE nor NOTICE nor a close"))
         served = [f[2] for _, f in frames if f[0] == "EVENT"]
@@ -784,6 +864,8 @@ def transcript_oracles(sc, obs):
                 out.append(("forged-event-served", i, "a forged event was served"))
             if x in removed and removed[x] < i:
                 out.append(("removed-event-still-served", i, "an event removed by its author's accepted deletion (operation %d) was served" % removed[x]))
+            if x in collected and collected[x] < i:
+                out.append(("collected-event-still-served", i, "an expired / ephemeral event was served after the collector pass of operation %d" % collected[x]))
     return out
 
 
@@ -838,6 +920,23 @@ def suite_app_limiter(tier, seed, backends=("sql",), n=None):
     return s
 
 
+def suite_app_gc(tier, seed, backends=("sql", "kv"), n=None):
+    s = Suite("app:gc")
+    s.rule = ("expiring (T+10 .. T+150, far future, malformed), ephemeral and plain events are accepted and looked up through GET /e/<id> and REQ while "
+              "still stored; the clock advances, the storage's own collector runs one pass, and every event is looked up again (twice: two passes); "
+              "the assembled application must answer like the direct stack, and no expired / ephemeral event may be served after the pass that had to "
+              "remove it; non-trivial = an event was served before a pass and had to be gone after it")
+    rng = rng_for(seed, "app-gc")
+    n = n or (3 if tier == "quick" else 20)
+    for b in backends:
+        for _ in range(n):
+            sc = gen_gc_scenario(rng, b)
+            a, d = judge(s, sc)
+            g = [o["get"][0] for o in d["obs"] if "get" in o]
+            s.case({"backend": b, "n_ops": len(sc["ops"])}, nontrivial=200 in g and 404 in g)
+    return s
+
+
 def suite_app_auth(tier, seed, backends=("sql", "kv"), n=None):
     s = Suite("app:auth")
     s.rule = ("authentication enabled through the YAML configuration (relay_urls, actions save / query with random role sets): NIP-42 answers "
@@ -860,7 +959,7 @@ def suite_app_auth(tier, seed, backends=("sql", "kv"), n=None):
 # which the property has to hold; the scenarios differ per property through the seed label)
 APP_SUITES = {
     "C03": ["store"], "C06": ["store"], "C08": ["store"], "C13": ["store"], "C16": ["store"], "C19": ["store", "auth"],
-    "C01": ["store"], "C14": ["auth"], "C15": ["auth"], "C18": ["limiter"],
+    "C01": ["store"], "C14": ["auth"], "C15": ["auth"], "C18": ["limiter"], "C17": ["gc"], "C05": ["auth"], "C02": ["store"],
 }
 
 
@@ -873,6 +972,8 @@ def suites_for(pid, tier, seed):
             out.append(suite_app_auth(tier, seed))
         elif k == "limiter":
             out.append(suite_app_limiter(tier, seed))
+        elif k == "gc":
+            out.append(suite_app_gc(tier, seed))
     return out
 
 
